@@ -7,7 +7,9 @@
 (* non-negative in all models and traces).                                 *)
 (*                                                                         *)
 (* op records: [op |-> "insert", k, v] | [op |-> "remove"|"get"|"find"|    *)
-(* "contains"|"next"|"prev", k] | [op |-> "min"|"max"|"clear"|"len"]       *)
+(* "contains"|"next"|"prev", k] | [op |-> "min"|"max"|"clear"|"len"] |     *)
+(* [op |-> "get_mut"|"index_mut", k, v] (write v through the reference if  *)
+(* k is stored) | [op |-> "index", k] | [op |-> "is_empty"]                *)
 (***************************************************************************)
 EXTENDS Integers, Sequences, FiniteSets, TLC
 
@@ -31,11 +33,15 @@ Ret(m, o) ==
     [] o.op = "max"      -> IF S = {} THEN None ELSE SetMax(S)
     [] o.op = "clear"    -> None
     [] o.op = "len"      -> Cardinality(S)
+    [] o.op = "is_empty" -> IF S = {} THEN 1 ELSE 0
+    [] o.op \in {"get_mut", "index_mut"} -> IF o.k \in S THEN m[o.k] ELSE None   \* the value before the write
+    [] o.op = "index"    -> IF o.k \in S THEN m[o.k] ELSE None                   \* (t[&k]: only asked for stored keys)
 
 Eff(m, o) ==
   CASE o.op = "insert" -> Upd(m, o.k, o.v)
     [] o.op = "remove" -> Del(m, o.k)
     [] o.op = "clear"  -> Empty
+    [] o.op \in {"get_mut", "index_mut"} -> IF o.k \in DOMAIN m THEN Upd(m, o.k, o.v) ELSE m   \* write through the reference
     [] OTHER -> m
 
 \* value accompanying the key returned by next/prev (the map hands out both)
